@@ -19,7 +19,7 @@ RULE = ("AddressSanitizer + UBSan build.  Transport: a real Node B with live ses
         "threshold set to 0, t-1, t+1, the share count, 255, a share index repeated inside or beyond the threshold, for shard "
         "configurations (1,1) (1,3) (2,3) (3,5) (5,5) (2,255) (16,32) -- and then a signed CHUNK with the replica bytes "
         "(genuine, flipped, cut, extended); B's ACK is read.  Then 0..6 hostile actions: raw bytes written into A's session "
-        "(frame headers announcing 0, 1, 2^20, 2^20+1, 2^32-1 bytes, truncated frames, random bytes), well-formed frames "
+        "(frame headers announcing 0, 1, 2^20, 2^20+1, 2^32-1 bytes, truncated frames, random bytes), well-formed signed ANNOUNCEs that assign a shard and carry a hostile endpoint text (ports beyond every integer type, signs, blanks, none; the node ticks afterwards), well-formed frames "
         "whose plaintext is random, a truncated or bit-flipped signed message, or a signed message of every type with hostile "
         "fields, length-field sweeps over a valid ANNOUNCE / CHUNK / REQUEST (at every offset of the encoding one, two or three "
         "consecutive 32-bit words whose sum wraps around to a small number, the rest of the message kept or cut there; signed, or sent "
@@ -83,8 +83,18 @@ def store_prefix(rng, favour_shards):
     return cid + [t, tot] + lp(data) + key + list(_c11.nonce_from_seed(seed)) + lp(rnd) + [kind, pos, val, seed], kind
 
 
+ENDPOINTS = [b"127.0.0.1:18446744073709551616", b"127.0.0.1:99999999999999999999999999999999999999", b"127.0.0.1:4294967296",
+             b"127.0.0.1:65536", b"127.0.0.1:0", b"127.0.0.1:", b"127.0.0.1", b":", b"", b"127.0.0.1:-1", b"127.0.0.1:+5", b"127.0.0.1: 80",
+             b"127.0.0.1:80abc", b"127.0.0.1:0x50", b"[::1]:99999999999999999999", b":18446744073709551616", b"127.0.0.1:9" + b"9" * 300,
+             b"127.0.0.1:1"]
+
+
 def hostile_action(rng):
     r = rng.random()
+    if r < 0.15:
+        # a well-formed, signed ANNOUNCE that assigns a shard, with a hostile endpoint text (the node parses it later)
+        return [6] + lp(rng.choice(ENDPOINTS))
+    r = (r - 0.15) / 0.85
     if r < 0.12:
         return [5] + lp(b"")          # a peer asks for the chunk and hangs up before the answer
     if r < 0.25:
